@@ -566,6 +566,12 @@ func crashExec(ops []string) (dops []string, res []string) {
 				st := (i * lossy) % len(cuts)
 				cuts = append(append([][]cut{}, cuts[st:]...), cuts[:st]...)[:lossy]
 			}
+			for f, sl := range img.files {
+				// always tried: one byte of a length prefix whose low byte is zero (the unsynced tail is one record of 256·m bytes)
+				if strings.HasSuffix(f, ".log") && sl[1]-sl[0] > 8 && (sl[1]-sl[0]-8)%256 == 0 {
+					cuts = append(cuts, []cut{{f, sl[0] + 1}})
+				}
+			}
 			for _, cs := range cuts {
 				os.RemoveAll(work)
 				copyDir(img.dir, work)
